@@ -55,8 +55,8 @@ class C18(C06):
     ID = "C18"
     MODULE = "AwProofs.Props.C18"
     THEOREMS = ["AwProofs.C18.age_flush", "AwProofs.C18.age_flush_includes_write", "AwProofs.C18.age_flush_insertMany_rows", "AwProofs.C18.age_flush_insertMany_upsert", "AwProofs.C18.at_risk_bounded", "AwProofs.C18.pending_young"]
-    LEVEL_TEXT = "Lean 4 theorems on the commit machine with the clock as an input: a write whose conditional commit runs more than 10 s after the last commit ends durable; every pending write was issued within 10 s after the last commit"
-    LEVEL_NOTE = "trusts: Lean kernel; the clock is datetime.now() as read by the store (replaced by a controllable clock in the check); SQLite commit durability"
+    LEVEL_TEXT = 'Lean 4 theorems on the commit machine with the clock reading as an input of every operation: age_flush / age_flush_includes_write (a single event write whose conditional commit runs more than 10 s after the last commit ends durable, itself included), age_flush_insertMany_upsert/rows, pending_young (every pending write was issued within 10 s after the last commit, monotone clock), at_risk_bounded; real store driven with a controllable clock in several process time zones, second-connection view after every write'
+    LEVEL_NOTE = 'trusts: Lean kernel + 3 standard axioms; the clock is datetime.now() as read by the store (replaced by a controllable clock); SQLite commit durability'
     TECHNIQUE = "Lean 4 invariant proof over the commit machine with clock input + differential correspondence with a fake clock"
     RULE = (
         "seeded random write histories with inter-arrival times in bursts (0..50 ms), trickles (0.5..6 s), long idle periods "
